@@ -128,7 +128,10 @@ func GetExtraSet(extra, raw []string) []string {
 	rt := make([]string, 0, len(extra)+len(raw))
 	rt = append(rt, raw...)
 	for _, v := range extra {
-		rt = append(rt, realPath(v))
+		// a name that cannot be resolved grants nothing (as an empty name it would stand for the work path in AddRange)
+		if p := realPath(v); p != "" {
+			rt = append(rt, p)
+		}
 	}
 	return rt
 }
